@@ -58,9 +58,11 @@ def gen_case(ctx, maxl=5, maxp=5, maxN=60):
         Y = g.integers(-4, 5, size=(l, Ndat)).astype(float)
     else:
         Y = g.standard_normal((l, Ndat))
+    # the map is bilinear: records of very small or very large amplitude are part of the domain
+    Y = Y * rng.choice([1.0, 1.0, 1.0, 1e-6, 1e6])
     Yref = Y[ref, :]
     if rng.random() < 0.2:  # reference data independent of Y (bilinear map, not quadratic form)
-        Yref = g.standard_normal((r, Ndat))
+        Yref = g.standard_normal((r, Ndat)) * rng.choice([1.0, 1e-6, 1e3])
     return Y, Yref, p, ref
 
 
@@ -223,7 +225,13 @@ def oracle(ctx, scale):
         Y = g.standard_normal((Nd, l))
         method = rng.choice(["cov_mm", "cov_R", "dat"])
         cls = SSIdat if method == "dat" else SSIcov
-        kw = dict(name="a", br=p, ordmax=min(2, (p + 1) * r, p * l), ref_ind=list(ref))
+        noref = rng.random() < 0.25
+        if noref:
+            ref = list(range(l))
+            r = l
+        kw = dict(name="a", br=p, ordmax=min(2, (p + 1) * r, p * l))
+        if not noref:
+            kw["ref_ind"] = list(ref)
         if method != "dat":
             kw["method"] = method
         ss = SingleSetup(Y.copy(), fs=10.0)
@@ -234,6 +242,22 @@ def oracle(ctx, scale):
         except (np.linalg.LinAlgError, ValueError, IndexError):
             ctx.skipped += 1
             continue
+        if rng.random() < 0.4:
+            # the same algorithm object re-used on a second setup with another channel count: what it builds must
+            # follow the data bound now and its own parameters, nothing carried over from the first run
+            l2 = rng.choice([c for c in range(max(max(ref) + 1, 2), 7) if c != l] or [l])
+            Y = g.standard_normal((Nd, l2))
+            l = l2
+            if noref:  # "all channels" of the data bound NOW
+                ref, r = list(range(l2)), l2
+            ss = SingleSetup(Y.copy(), fs=10.0)
+            ss.add_algorithms(alg)
+            try:
+                ss.run_by_name("a")
+            except (np.linalg.LinAlgError, ValueError, IndexError):
+                ctx.skipped += 1
+                continue
+            ctx.count("class_object_reused")
         H = alg.result.H
         ctx.oracle_cases += 1
         ctx.nontrivial.add(("class", method, l, tuple(ref), p))
